@@ -203,6 +203,13 @@ func c18Observe(ov fs.FS, qs []c18Q) Obs {
 				xs = append(xs, L(A(e.Name()), B(e.IsDir())))
 			}
 			out = append(out, L(xs...))
+			// what ReadDir returned is the caller's: a caller that reorders or truncates it changes nothing for the next call
+			for i, j := 0, len(es)-1; i < j; i, j = i+1, j-1 {
+				es[i], es[j] = es[j], es[i]
+			}
+			if len(es) > 1 {
+				es = append(es[:0], es[1])
+			}
 		default:
 			ms, err := fs.Glob(ov, q.arg)
 			if err != nil {
